@@ -41,7 +41,7 @@ m = {
     "engines": [{
         "name": "gosym", "path": "engine/",
         "serves_properties": [c["property_id"] for c in checks],
-        "kind_free_text": "KLEE-style bounded symbolic interpreter for go/ssa (x/tools v0.29.0) written for this task: byte-addressed memory with unsafe views, fork by re-execution, z3 4.8.12 over a pipe; models replayed natively via go test -overlay",
+        "kind_free_text": "KLEE-style bounded symbolic interpreter for go/ssa (x/tools v0.29.0) written for this task: byte-addressed memory with unsafe views, fork by re-execution, z3 5.1.0 (z3-new) over a pipe per worker with cvc5 1.0 / z3 4.8.12 as non-incremental fall-backs on unknown, in-memory file system for the os/syscall file API; models replayed natively via go test -overlay",
     }],
     "checks": checks,
     "not_applicable": na,
